@@ -170,7 +170,8 @@ def check_case(case):
     edges, centres = edges_for(scale, B, seed)
     al = freq_alphabet(edges)
     f = np.array([al[i] for i in fi]).reshape(T, M)
-    a = amplitudes(T, M, amp, seed)
+    # amplitudes differ from one case to the next (an exact power-of-two factor that follows the frequency pattern)
+    a = amplitudes(T, M, amp, seed) * 2.0 ** (sum(fi) % 3)
     viols = []
     trans = 0
     inrange = np.logical_and(f >= edges[0], f < edges[-1])
@@ -270,7 +271,7 @@ def describe(case):
     edges, _ = edges_for(scale, B, seed)
     al = freq_alphabet(edges)
     return 'edges=%s f=%s a=%s' % (np.asarray(edges).tolist(), np.array([al[i] for i in fi]).reshape(T, M).tolist(),
-                                   amplitudes(T, M, amp, seed).tolist())
+                                   (amplitudes(T, M, amp, seed) * 2.0 ** (sum(fi) % 3)).tolist())
 
 
 def snippet(case, kind):
@@ -285,7 +286,7 @@ def snippet(case, kind):
             'print(emd.spectra.hilberthuang(f, a, edges, mode="amplitude"))\n'
             'print(emd.spectra.hilberthuang_1d(f, a, edges, mode="amplitude"))\n'
             '# each sample must land only in the bin with edges[b] <= f < edges[b+1]\n'
-            % (np.asarray(edges).tolist(), f.tolist(), amplitudes(T, M, amp, seed).tolist()))
+            % (np.asarray(edges).tolist(), f.tolist(), (amplitudes(T, M, amp, seed) * 2.0 ** (sum(fi) % 3)).tolist()))
 
 
 def nonvacuity(rep, ctx):
